@@ -161,9 +161,11 @@ Definition e_const_inc_of (a : expr) (v : Z) : option Z :=
 
 Definition remove_var (v : Z) (l : list Z) : list Z := filter (fun x => negb (x =? v)) l.
 
-Definition e_prod_of (a : expr) (v : Z) : option expr :=
+(** the parts with [v] removed are added one by one ([res = res.add(part)]): removing a variable
+    can change the order of the parts and make two variable lists equal *)
+Definition e_prod_of (w : Z) (a : expr) (v : Z) : option expr :=
   if forallb (fun p => (count v (snd p) =? 1)%nat) a
-  then Some (map (fun p => (fst p, remove_var v (snd p))) a)
+  then Some (fold_left (fun acc p => e_add w acc [(fst p, remove_var v (snd p))]) a [])
   else None.
 
 Definition e_constant_part (a : expr) : Z :=
